@@ -209,6 +209,48 @@ def checkpoint_case(rng):
         return {"checkpoint": True, "body": body, "x": x, "ok": False, "error": repr(ex)}
 
 
+def checkpoint_case_nary(rng):
+    """checkpoint of a function of 2..3 positional arguments (+ a keyword): value, every first partial, every
+    (mixed) second partial by position, by closure nesting and along a curve t -> cf(t, t*t)"""
+    n = rng.randint(2, 3)
+    body = impl_l2.gen(rng, rng.randint(3, 4), n, {"maxd": 0})
+    if not all(str(["var", i]) in str(body) for i in range(n)):
+        body = ["app2", "mul", body, ["app2", "mul", ["var", 0], ["app2", "mul", ["var", 1], ["var", n - 1]]]]
+    f = lambda *xs, scale=1.0: impl_l2.ev(body, list(xs)) * scale  # noqa: E731
+    cf = checkpoint(f)
+    xs = [float(rng.choice([-2, -1, 1, 2])) for _ in range(n)]
+    kw = {"scale": 2.0} if rng.random() < 0.5 else {}
+    try:
+        base, chk = [f(*xs, **kw)], [cf(*xs, **kw)]
+        for i in range(n):
+            base.append(grad(f, i)(*xs, **kw))
+            chk.append(grad(cf, i)(*xs, **kw))
+            for j in range(n):
+                base.append(grad(grad(f, i), j)(*xs, **kw))
+                chk.append(grad(grad(cf, i), j)(*xs, **kw))
+        # closure nesting: the outer variable reaches cf through a position the inner grad does not differentiate
+        rest = xs[2:]
+        base.append(grad(lambda x: grad(lambda y: f(x, y, *rest))(xs[1]))(xs[0]))
+        chk.append(grad(lambda x: grad(lambda y: cf(x, y, *rest))(xs[1]))(xs[0]))
+        base.append(grad(grad(lambda t: f(t, t * t, *rest)))(xs[0]))
+        chk.append(grad(grad(lambda t: cf(t, t * t, *rest)))(xs[0]))
+        # forward over reverse through the checkpoint: checkpoint has no JVP, so this may raise (loud); if it
+        # returns, it must be right
+        try:
+            v = make_jvp(lambda x: grad(cf, 1)(x, *xs[1:]))(xs[0])(1.0)[1]
+            base.append(make_jvp(lambda x: grad(f, 1)(x, *xs[1:]))(xs[0])(1.0)[1])
+            chk.append(v)
+        except NotImplementedError:
+            pass
+        ok = all(float(a) == float(b) for a, b in zip(base, chk))
+        return {"checkpoint": True, "body": body, "x": xs, "ok": ok, "base": [float(v) for v in base],
+                "chk": [float(v) for v in chk]}
+    except OverflowError:
+        return None
+    except Exception as ex:
+        return {"checkpoint": True, "body": body, "x": xs, "ok": False, "error": repr(ex)}
+
+
 def main():
     cfg = json.load(sys.stdin)
     rng = random.Random(cfg["seed"])
@@ -221,9 +263,9 @@ def main():
         out["jvp"].append(jvp_case(rng))
     for i in range(cfg["n_oracle"]):
         out["oracle"].append(two_level_case(rng))
-        c = checkpoint_case(rng)
-        if c:
-            out["oracle"].append(c)
+        for c in (checkpoint_case(rng), checkpoint_case_nary(rng)):
+            if c:
+                out["oracle"].append(c)
     print(json.dumps(out))
 
 
